@@ -937,7 +937,7 @@ class TransportLayerLogic:
                 if pdu.data is not None:
                     frame_complete = True
                     self.rx_queue.put(bytearray(pdu.data))
-                    self.rx_state = self.RxState.IDLE
+                    self._stop_receiving()      # Go back to IDLE. Drops the interrupted reception, including its timer
                     self._trigger_error(isotp.errors.ReceptionInterruptedWithSingleFrameError(
                         'Reception of IsoTP frame interrupted with a new SingleFrame'))
 
@@ -1381,6 +1381,7 @@ class TransportLayerLogic:
                 "Received a First Frame with a length of %d bytes, but params.max_frame_size is set to %d bytes. Ignoring" % (pdu.length, self.params.max_frame_size)))
             self._request_tx_flowcontrol(PDU.FlowStatus.Overflow)
             self.rx_state = self.RxState.IDLE
+            self.timer_rx_cf.stop()     # If a reception was interrupted, its timer must not fire while idle
         else:
             self.rx_state = self.RxState.WAIT_CF
             self.rx_frame_length = pdu.length
